@@ -204,17 +204,28 @@ def draw_obs_layout(rng, wn, kmax=40):
         if rng.random() < 0.25 and K >= 4:
             # one or two broad bins laid over the channels (a white-light / photometric point among spectroscopic
             # channels): bins overlap each other, a wider bin follows narrower ones in centre order
+            tied = False
             for _b in range(int(rng.integers(1, 3))):
                 k = float(rng.uniform(2.0, K - 1.0))
                 half = 0.5 * k * D
                 cc = float(rng.uniform(a + half, b - half))
-                cc += 0.013 * D                      # never exactly on a channel centre
+                if rng.random() < 0.35:
+                    # centred EXACTLY on a channel: two bins share a centre and differ in width
+                    inside = np.where((c[:K] - half >= a - 1e-9 * D) & (c[:K] + half <= b + 1e-9 * D))[0]
+                    if len(inside):
+                        cc = float(c[int(inside[rng.integers(0, len(inside))])])
+                        if np.sum(c == cc) == 1:
+                            c = np.append(c, cc)
+                            w = np.append(w, 2 * half)
+                            tied = True
+                        continue
+                cc += 0.013 * D                      # otherwise clear of every channel centre
                 if cc + half <= b + 1e-9 * D and np.min(np.abs(c - cc)) > 1e-3 * D:
                     c = np.append(c, cc)
                     w = np.append(w, 2 * half)
-            order = np.argsort(c)
+            order = np.lexsort((w, c))
             c, w = c[order], w[order]
-            return {'c': c, 'w': w, 'D': D, 'K': len(c), 'width_kind': 3, 'native_spacing': spacing}
+            return {'c': c, 'w': w, 'D': D, 'K': len(c), 'width_kind': 3, 'native_spacing': spacing, 'tied_centres': tied}
         return {'c': c, 'w': w, 'D': D, 'K': K, 'width_kind': kindw, 'native_spacing': spacing}
     return None
 
